@@ -49,8 +49,9 @@ impl<'i> super::ExecutableInstruction<'i> for ApMap<'i> {
         // https://github.com/fluencelabs/aquavm/issues/216
         let result = joinable!(apply_to_arg(&self.value, exec_ctx, trace_ctx, true), exec_ctx, ())?;
 
-        let merger_ap_result = to_merger_ap_map_result(&self, trace_ctx)?;
+        // the key has to be resolved before the trace is touched for the same reason
         let key = joinable!(resolve_key_if_needed(&self.key, exec_ctx, self.map.name), exec_ctx, ())?;
+        let merger_ap_result = to_merger_ap_map_result(&self, trace_ctx)?;
         populate_context(key, &self.map, &merger_ap_result, result, exec_ctx)?;
         trace_ctx.meet_ap_end(ApResult::stub());
 
